@@ -41,12 +41,12 @@ PROPS['C20'] = {
 NOT_APPLICABLE = {}
 
 PROPS['C02'] = {
-    'modules': ['c02', ('c18', ['R18.3']), ('c05', ['A5.8']), ('c03', ['R3.6', 'R3.10', 'R3.11']), ('c11', ['R11.4']), ('c04', ['K5']), ('c10', ['R10.2'])],
+    'modules': ['c02', ('c18', ['R18.3']), ('c05', ['A5.8']), ('c03', ['R3.6', 'R3.10', 'R3.11', 'R3.12']), ('c11', ['R11.4']), ('c04', ['K5']), ('c10', ['R10.2'])],
     'level': 'other',
     'quick_configs': ['default'],
     'thorough_configs': ALL,
     'controls': [],
-    'floors': {'default': {'B0': 20, 'B1': 1, 'B2': 1, 'B3': 2, 'B4': 1, 'B5.cast': 3, 'B5.index': 1, 'B6': 1, 'R18.3': 1,
+    'floors': {'default': {'B0': 20, 'B1': 1, 'B2': 1, 'B3': 2, 'B4': 1, 'B5.cast': 3, 'B5.index': 1, 'B6': 1, 'B7': 2, 'R18.3': 1,
                            'A5.8.truncate': 1, 'R3.6': 1}},
     'rule_text': 'one obligation per panic site of File read/write/seek/truncate (B0), per device transfer of File '
                  '(length clipped by two min() against cluster rest and file rest / 4 GiB limit: B1, B2), per cursor '
@@ -210,7 +210,7 @@ PROPS['C12'] = {
     'quick_configs': ['default'],
     'thorough_configs': ALL,
     'controls': ['Q1'],
-    'floors': {'default': {'Q1': 6, 'Q1.c': 2, 'Q6': 1, 'K1b': 1}},
+    'floors': {'default': {'Q1': 6, 'Q1.c': 2, 'Q6': 1, 'K1b': 1, 'Q7': 1}},
     'rule_text': 'one obligation per raw device-write site (a call made while a guard of the `disk` cell is alive that '
                  'reaches a device write), per structural condition of the FS adapter, the unmount sequence, the '
                  'status-byte latch, the two status offsets and the status query; non-trivial = decided by dominance / '
@@ -237,7 +237,7 @@ PROPS['C12'] = {
 }
 
 PROPS['C05'] = {
-    'modules': ['c05', ('c03', ['R3.8', 'R3.7b', 'R3.11']), ('c11', ['R11.4', 'R11.1']), ('c04', ['K5'])],
+    'modules': ['c05', ('c03', ['R3.8', 'R3.7b', 'R3.11', 'R3.12']), ('c11', ['R11.4', 'R11.1']), ('c04', ['K5'])],
     'level': 'other',
     'quick_configs': ['default'],
     'thorough_configs': ALL,
@@ -300,7 +300,7 @@ PROPS['C15'] = {
     'quick_configs': ['default', 'noalloc'],
     'thorough_configs': ALL,
     'controls': ['N1', 'N8'],
-    'floors': {'default': {'N1': 6, 'N3.chars': 1, 'N3.len': 1, 'N6': 1, 'N5': 2, 'N2': 60, 'N5b': 1, 'N7': 1, 'N5c': 1}},
+    'floors': {'default': {'N1': 6, 'N3.chars': 1, 'N3.len': 1, 'N6': 1, 'N5': 2, 'N2': 60, 'N5b': 1, 'N7': 1, 'N5c': 1, 'N8b': 1, 'N9': 3, 'N9.pair': 3, 'N5d': 2}},
     'rule_text': 'obligations: one per instance of create_file/create_dir/rename (two-state protocol: no unguarded device '
                  'write before a name validator\'s Ok edge), the accepted-character table over all 0x110000 code points, '
                  'the length table over all usize lengths, the accepted long-name sequence numbers, the buffer capacity '
@@ -331,7 +331,7 @@ PROPS['C01'] = {
     'quick_configs': ['default'],
     'thorough_configs': ALL,
     'controls': ['N1', 'N8'],
-    'floors': {'default': {'N1': 6, 'R1.2': 6, 'R1.3': 1, 'R1.5': 6, 'R3.7': 1, 'R1.7': 120, 'R1.8': 1, 'N5b': 1, 'R1.9': 1}},
+    'floors': {'default': {'N1': 6, 'R1.2': 6, 'R1.3': 1, 'R1.5': 6, 'R3.7': 1, 'R1.7': 120, 'R1.8': 1, 'N5b': 1, 'R1.9': 1, 'N8b': 1}},
     'rule_text': 'obligations: N1 instances (shared with C15), one per mutation site of create_file/create_dir/'
                  'rename_internal (must lie on the `name is free` arm), the emptiness guard of remove, the '
                  'publish-before-delete order of rename, and one per intermediate path lookup; non-trivial = dominance or '
@@ -358,7 +358,7 @@ PROPS['C07'] = {
     'quick_configs': ['default'],
     'thorough_configs': ALL,
     'controls': [],
-    'floors': {'default': {'M1': 25, 'M2a': 8, 'M2b': 13, 'M2c': 2, 'M2d': 11, 'SB1': 1, 'SB2': 1, 'M2f': 1}},
+    'floors': {'default': {'M1': 25, 'M2a': 8, 'M2b': 13, 'M2c': 2, 'M2d': 11, 'SB1': 1, 'SB2': 1, 'M2f': 1, 'FT2': 1}},
     'rule_text': 'one obligation per panic site (MIR Assert or panicking library call) in a function reachable from '
                  'FileSystem::new, evaluated in every calling context by interval analysis; one per geometry condition '
                  'of the statement (range established at the Ok exit, rejecting comparison, width-consistency table, '
@@ -448,7 +448,7 @@ PROPS['C10'] = {
     'quick_configs': ['default'],
     'thorough_configs': ALL,
     'controls': [],
-    'floors': {'default': {'R10.1': 20, 'R10.2': 1, 'R10.3': 1, 'R10.4.hint': 1, 'X4': 3, 'X8': 1, 'X9': 1, 'X7': 8}},
+    'floors': {'default': {'R10.1': 20, 'R10.2': 1, 'R10.3': 1, 'R10.4.hint': 1, 'X4': 3, 'X8': 1, 'X9': 1, 'X7': 8, 'R10.6': 2, 'R10.7': 2}},
     'rule_text': 'obligations: one per monomorphic instance of a FAT writer (stream type must be the mirrored DiskSlice), '
                  'the two arms of the slice geometry, the two flag decoders, the replicated-write loop, the two '
                  'read-modify-write sites, format_fat and the allocator\'s hint clamp',
@@ -476,12 +476,12 @@ PROPS['C10'] = {
 }
 
 PROPS['C03'] = {
-    'modules': ['c03', ('c05', ['A5.8']), ('c10', ['R10.4', 'R10.2']), ('c15', ['N7']), ('c04', ['K5']), ('c11', ['R11.4']), ('retry', ['R9.9'])],
+    'modules': ['c03', ('c05', ['A5.8']), ('c10', ['R10.4', 'R10.2']), ('c15', ['N7', 'N9']), ('c04', ['K5']), ('c11', ['R11.4']), ('retry', ['R9.9']), ('c02', ['B5', 'B7'])],
     'level': 'other',
     'quick_configs': ['default'],
     'thorough_configs': ALL,
     'controls': [],
-    'floors': {'default': {'R3.1': 1, 'R3.2': 1, 'R3.3': 1, 'R3.7': 1, 'R3.8': 1, 'R3.9': 1, 'R10.4.hint': 1, 'N7': 1, 'R3.10': 1, 'R3.11': 1, 'R9.9': 2, 'R11.4': 2}},
+    'floors': {'default': {'R3.1': 1, 'R3.2': 1, 'R3.3': 1, 'R3.7': 1, 'R3.8': 1, 'R3.9': 1, 'R10.4.hint': 1, 'N7': 1, 'R3.10': 1, 'R3.11': 1, 'R9.9': 2, 'R11.4': 2, 'R3.12': 1, 'N9': 3, 'B7': 2}},
     'rule_text': 'obligations: zero-fill of directory clusters (length, guard, position, the two callers\' arguments), '
                  'dot entries, release-on-failure of the unpublished allocation, `..` rewrite on move, first-cluster reset '
                  'at offset 0, the contiguous-run counter of the free-slot search, the truncate order, plus the reclaim '
@@ -530,12 +530,12 @@ PROPS['C04'] = {
 }
 
 PROPS['C11'] = {
-    'modules': ['c11', ('c10', ['R10.4', 'R10.2']), ('c03', ['R3.8']), ('c20', ['W1', 'W4']), ('c08', ['X2']), 'invariants'],
+    'modules': ['c11', ('c10', ['R10.4', 'R10.2', 'R10.7']), ('c03', ['R3.8']), ('c20', ['W1', 'W4']), ('c08', ['X2']), 'invariants'],
     'level': 'other',
     'quick_configs': ['default'],
     'thorough_configs': ALL,
     'controls': ['R11.1', 'R11.2'],
-    'floors': {'default': {'R11.1': 6, 'R11.2.adapter': 1, 'R11.3': 4, 'R10.4.hint': 1, 'R3.8': 1, 'R10.2': 1, 'R11.4': 2, 'R11.5': 6, 'INV.DiskSlice': 1}},
+    'floors': {'default': {'R11.1': 6, 'R11.2.adapter': 1, 'R11.3': 4, 'R10.4.hint': 1, 'R3.8': 1, 'R10.2': 1, 'R11.4': 2, 'R11.5': 6, 'INV.DiskSlice': 1, 'R11.6': 1}},
     'rule_text': 'one obligation per raw device-write site (closed set; each must be dominated by a successful seek whose '
                  'offset provenance is in an allowed class), per clipping site (File::write, DiskSlice read/write/seek), '
                  'plus the allocator bounds (hint clamp, padding entries; C10 rules) and the truncate order (C03 rule)',
@@ -678,6 +678,16 @@ RULE_GLOSSARY = {
     'V6': 'the root-directory size used for sizing / written to the BPB depends on the FAT type it is used for',
     'N5c': 'the case-fold iterator of a character is consumed in full, not cut to its first item',
     'N8': 'a length in UTF-8 bytes is never compared / added to a length in UTF-16 units or chars',
+    'B7': 'the cluster remembered after a transfer is the one whose offset went to the device, or is computed from the device count',
+    'R3.12': 'a cluster is appended after a remembered cluster only where that cluster\'s successor was looked up in the FAT on the way',
+    'R10.6': 'set_raw (which overwrites the whole stored word) is called only by set of the same FAT width',
+    'R10.7': 'copies written by a slice = constructor argument composed with the write loop count: fats with mirroring, one otherwise',
+    'FT2': 'the FAT width a volume is mounted with is computed from the unmodified BiosParameterBlock::total_clusters',
+    'N5d': 'where names are compared by folded characters (Unicode build) no comparison of their raw lengths decides the answer',
+    'Q7': 'set_dirty_flag returns Ok without a device write only on arms decided by the cached status value',
+    'R11.6': 'the FS-information value kept for write-back is the successfully decoded sector, never constructed after a read',
+    'N9': 'the string that is looked up for existence, turned into the 8.3 alias and stored in the long-name slots is the caller\'s name itself',
+    'N8b': 'a number of long-name slots (a count divided by LFN_PART_LEN) is derived from a length in UTF-16 units only',
     'P3': 'a write-back latch is lowered (any store other than `true`) only after the Ok edge of the device write',
     'Q2': 'unmount: FS-information flush, then - only on its Ok edge - set_dirty_flag(false)',
     'Q6': 'File::truncate cannot change the size and return Ok without a table write / set_dirty_flag(true)',
